@@ -99,7 +99,7 @@ func (dl DecodingLayerSparse) LayersDecoder(first LayerType, df DecodeFeedback) 
 
 // Decoder implements DecodingLayerContainer interface.
 func (dl DecodingLayerSparse) Decoder(typ LayerType) (DecodingLayer, bool) {
-	if int64(typ) < int64(len(dl)) {
+	if typ >= 0 && int64(typ) < int64(len(dl)) {
 		decoder := dl[typ]
 		return decoder, decoder != nil
 	}
